@@ -12,7 +12,7 @@ use std::time::Duration;
 
 use crate::cancel::Cancel;
 use crate::coroutine_impl::{
-    co_cancel_data, current_cancel_data, is_coroutine, run_coroutine, CoroutineImpl, EventSource,
+    co_cancel_handle, current_cancel_data, is_coroutine, run_coroutine, CoroutineImpl, EventSource,
 };
 use crate::scheduler::get_scheduler;
 use crate::sync::atomic_dur::AtomicDuration;
@@ -218,7 +218,7 @@ impl Drop for Park {
 impl EventSource for Park {
     // register the coroutine to the park
     fn subscribe(&mut self, co: CoroutineImpl) {
-        let cancel = co_cancel_data(&co);
+        let cancel = co_cancel_handle(&co);
         // if we share the same park, the previous timer may wake up it by false
         // if we not deleted the timer in time
         let timeout_handle = self
